@@ -482,6 +482,11 @@ theorem gen_routable :
     ("healthy", true) ∈ Olla.Gen.Health.statusRoutable ∧ ("offline", false) ∈ Olla.Gen.Health.statusRoutable ∧
     ("unhealthy", false) ∈ Olla.Gen.Health.statusRoutable ∧ ("unknown", false) ∈ Olla.Gen.Health.statusRoutable := by decide
 
+/-- The glue in front of the checker: every configured endpoint arrives in the repository with the type, priority,
+    check interval, check timeout and preserve_path it was configured with (a finite table, regenerated on every run). -/
+theorem gen_endpoint_conversion_faithful :
+    Olla.Gen.Health.endpointConversion.all (fun r => r.1 == r.2) = true := by decide
+
 /-- Validation accepts check intervals above the 60 s cap (so they are inside the property's quantifier). -/
 theorem gen_interval_above_cap_accepted :
     ∃ r ∈ Olla.Gen.Health.acceptedTimings, r.1 > capLit ∧ r.2.2 = true := by decide
